@@ -198,14 +198,14 @@ def c02_oracle(ctx, desc, x):
     if B.wf(r.tree):
         return ""  # structural corruption is C01's subject; the walk is meaningless
     probes = []
-    for k in ("L", "D"):
+    # probe ids: the new values and every id present before the step (stale entries)
+    r3 = desc.get("regime") == "R3"
+    for k in ("D",) if r3 else ("L",):
         if k in x and x[k] != 0:
             probes.append(x[k])
     n = len(desc["shape"])
     for i in range(n):
-        probes.append(x["l%d" % i])
-        if desc.get("regime") == "R3":
-            probes.append(x["d%d" % i])
+        probes.append(x["d%d" % i] if r3 else x["l%d" % i])
     c = B.index_exact(r.tree, probes)
     if c:
         return c + ("" if r.exc is None else ":after-%s" % type(r.exc).__name__)
@@ -233,12 +233,14 @@ def c03_oracle(ctx, desc, x):
         return early
     if r.deep_into_self and ctx.known("deep-copy-into-own-branch"):
         return ""
-    if r.status and r.status[0] == "refuse" and r.status[1] == "unique":
+    if r.status and r.status[0] == "refuse" and r.status[1] in ("unique", "unique+position"):
         ctx.mark()
         if r.exc is None:
             return "uniq:collision-not-refused"
-        if not isinstance(r.exc, UniqueConstraintError):
+        if r.status[1] == "unique" and not isinstance(r.exc, UniqueConstraintError):
             return "uniq:refused-with-%s" % type(r.exc).__name__
+    elif r.exc is None:
+        ctx.mark()
     if B.wf(r.tree):
         return ""
     c = B.siblings_unique(r.tree)
